@@ -1,5 +1,6 @@
 import GoJson.Drv.Util
 import GoJson.Model.BufDec
+import GoJson.Model.Skip
 namespace GoJson.Drv.C05
 open GoJson.Drv
 
@@ -7,6 +8,9 @@ def handle : List String → Option String
   | ["acc", range, buf] => do
     let b ← unhex buf
     some (if GoJson.Model.BufDec.accepts (range == "1") b then "ok" else "err")
+  | ["skp", buf] => do
+    let b ← unhex buf
+    some (if GoJson.Model.Skip.skipAccepts b then "ok" else "err")
   | ["isnum", buf] => do
     let b ← unhex buf
     some (if GoJson.Spec.isNumber b then "ok" else "err")
